@@ -143,7 +143,14 @@ impl Scheduler for SimScheduler {
         let mut diverged = false;
         let mut stalls = 0u64;
         let mut prio_changes = 0u64;
-        let chosen: u32 = if ids.len() == 1 {
+        let pinned = match cur {
+            Some(c) if crate::real_guards_held() > 0 && ids.contains(&c) && !matches!(self.spec, SchedSpec::Replay { .. }) => Some(c),
+            _ => None,
+        };
+        let chosen: u32 = if let Some(c) = pinned {
+            // the running task holds a real lock (see `real_guard_enter`): no preemption
+            c
+        } else if ids.len() == 1 {
             if let SchedSpec::Replay { decisions } = &self.spec {
                 if decisions.get(step as usize) != Some(&ids[0]) {
                     diverged = true;
@@ -289,6 +296,7 @@ where
     let fcell: Arc<Mutex<Option<F>>> = Arc::new(Mutex::new(Some(f)));
     let slot2 = slot.clone();
     crate::ctx::reset();
+    crate::real_guards_reset();
     crate::ctx::with(|c| {
         c.io = env.io.clone();
         c.stdin = env.stdin.clone();
